@@ -213,7 +213,7 @@ def sched_step(cfg, state, d, g):
     info["maxwait"] = max(wait2)
     if max(wait2) > B:
         starved = [a for a in agents if wait2[ix[a]] > B]
-        out.append(("sched:starvation:%s:rotate=%d" % (policy, int(rotate)),
+        out.append(("sched:starvation:%s" % policy,
                     "%s waited %d selections > bound %d; %s" % (starved, max(wait2), B, desc)))
         return out, None, info
     return out, (tuple(qq), idle2, consec2, wait2), info
